@@ -419,7 +419,7 @@ def prove(assumptions, goal, timeout_s=10, opts=None, rounds=2):
     if not (opts or {}).get("no_slice"):
         assumptions = slice_assumptions(list(assumptions), goal)
     base = [a for a in assumptions] + [z3.Not(goal)]
-    inst = axioms.saturate(base, rounds=rounds, opts=opts)
+    inst = axioms.saturate(base, rounds=(opts or {}).get("rounds", rounds), opts=opts)
     formulas = base + inst
     if (opts or {}).get("abstract_nl"):
         # cheap sound first attempt: products/quotients of unknowns as uninterpreted functions (linear arithmetic + congruence)
